@@ -1,10 +1,12 @@
 CONSTANTS
   HashMode = "real"
   Bug = "none"
-  Sweeps = {"near", "deepq"}
+  Sweeps = {"near", "deepq", "hier", "xtwin", "xdeep"}
   PairDepth = 2
   NearDepth = 2
   DeepDepth = 2
+  HierDepth = 2
+  XDepth = 1
   EmitCases = TRUE
 INIT Init
 NEXT Next
